@@ -1837,9 +1837,88 @@ Proof.
       rewrite A2, A1, sel_upd_same, upd_upd, sel_abs, Hsel. cbn [pairs map skipn]. reflexivity.
 Qed.
 
+(* two worlds that differ only in schedule, trace, element sizes and (larger) pool capacities *)
+Definition mem_ge (w w1 : qworld) : Prop :=
+  w_h w1 = w_h w /\ w_val w1 = w_val w /\ w_fresh w1 = w_fresh w /\
+  forall t, q_pool (getq w1 t) = q_pool (getq w t) /\ q_num (getq w1 t) = q_num (getq w t) /\
+            q_mem (getq w t) <= q_mem (getq w1 t).
+
+Lemma mem_ge_QInv w w1 X : mem_ge w w1 -> QInv w X -> QInv w1 X.
+Proof.
+  intros (Hh & Hv & Hf & Hq) I.
+  assert (Hall : allnodes w1 X = allnodes w X).
+  { unfold allnodes, pools. f_equal. f_equal. f_equal; [apply (Hq false)|apply (Hq true)]. }
+  constructor; rewrite ?Hall, ?Hh, ?Hv, ?Hf.
+  - apply (qi_ring _ _ I).
+  - apply (qi_nodup _ _ I).
+  - apply (qi_node _ _ I).
+  - intros t. destruct (Hq t) as (E1 & E2 & E3). rewrite E2. apply (qi_num _ _ I).
+  - intros t. destruct (Hq t) as (E1 & E2 & E3). rewrite E1. pose proof (qi_mem _ _ I t). lia.
+  - apply (qi_fresh _ _ I).
+Qed.
+
+Lemma mem_ge_abs w w1 X : mem_ge w w1 -> abs w1 X = abs w X.
+Proof.
+  intros (Hh & Hv & _). unfold abs. f_equal; apply pairs_ext; intros x _; unfold val; rewrite Hv; reflexivity.
+Qed.
+
+(* the reservation at the head of a_que_drop: one request at most; nothing but the capacity changes *)
+Lemma reserve_ok w X s :
+  QInv w X ->
+  exists w1 ok, q_reserve w s = (w1, ok) /\ trace_ok w w1 /\ QInv w1 X /\ abs w1 X = abs w X /\
+    (ok = false -> failed w1 = true) /\
+    (ok = true -> N.of_nat (length (q_pool (getq w1 s))) + q_num (getq w1 s) <= q_mem (getq w1 s)).
+Proof.
+  intros I. unfold q_reserve.
+  set (need := N.of_nat (length (q_pool (getq w s))) + q_num (getq w s)).
+  destruct (N.ltb (q_mem (getq w s)) need) eqn:Hlt.
+  - pose proof (ask_spec w (RPool (8 * size_up8 need))) as A.
+    destruct (ask w (RPool (8 * size_up8 need))) as [w1 ok].
+    destruct A as (Hh & Hv & Hf & Ha & Hb & Ht & Hs).
+    assert (C1 : same_core w w1) by (unfold same_core; auto).
+    destruct ok.
+    + eexists _, true. split; [reflexivity|].
+      assert (Hq1 : forall t, getq w1 t = getq w t) by (intros []; unfold getq; congruence).
+      assert (G : mem_ge w (setq w1 s (mkQ (q_pool (getq w s)) (q_siz (getq w s)) (q_num (getq w s)) (size_up8 need)))).
+      { unfold mem_ge. split; [destruct s; simpl; congruence|]. split; [destruct s; simpl; congruence|].
+        split; [destruct s; simpl; congruence|]. intros t. destruct (bool_cases s t) as [->| ->].
+        - rewrite getq_setq_same. cbn [q_pool q_num q_mem]. split; [reflexivity|]. split; [reflexivity|].
+          apply N.ltb_lt in Hlt. pose proof (size_up8_ge need). lia.
+        - rewrite getq_setq_other, Hq1. split; [reflexivity|]. split; [reflexivity|]. lia. }
+      split; [|split; [eapply mem_ge_QInv; eauto|split; [apply (mem_ge_abs _ _ _ G)|split; [discriminate|]]]].
+      * intros H. destruct (Hs H) as [_ H1]. split.
+        -- unfold no_fault. destruct s; simpl; exact H1.
+        -- unfold failed. destruct s; simpl; rewrite Ht; reflexivity.
+      * intros _. rewrite getq_setq_same. cbn [q_pool q_num q_mem]. fold need. apply size_up8_ge.
+    + exists w1, false. split; [reflexivity|]. split.
+      * intros H. destruct (Hs H). discriminate.
+      * split; [eapply same_core_QInv; eauto|]. split; [apply same_core_abs; exact C1|].
+        split; [|discriminate]. intros _. unfold failed. rewrite Ht. reflexivity.
+  - exists w, true. split; [reflexivity|]. split; [apply trace_ok_refl|]. split; [exact I|]. split; [reflexivity|].
+    split; [discriminate|]. intros _. apply N.ltb_ge in Hlt. exact Hlt.
+Qed.
+
+(* a_que_drop as it is now: reservation, then the loop *)
 Lemma drop_ok w X s :
   QInv w X ->
   exists w' rc k, q_drop w s = Ok (w', rc) /\ trace_ok w w' /\
+    QInv w' (upd s (skipn k (sel s X)) X) /\
+    abs w' (upd s (skipn k (sel s X)) X) = upd s (skipn k (sel s (abs w X))) (abs w X) /\
+    ((rc = 0%Z /\ skipn k (sel s X) = []) \/ (rc <> 0%Z /\ failed w' = true)).
+Proof.
+  intros I. unfold q_drop. destruct (reserve_ok w X s I) as (w1 & ok & E & T & I1 & A1 & F1 & _). rewrite E.
+  destruct ok.
+  - destruct (drop_loop_ok s (fuel_of w1) w1 X I1 (QInv_fuel w1 X s I1)) as (w' & rc & k & E2 & T2 & I2 & A2 & C2).
+    exists w', rc, k. split; [exact E2|]. split; [eapply trace_ok_trans; eauto|]. split; [exact I2|].
+    split; [rewrite A2, A1; reflexivity|exact C2].
+  - exists w1, 4%Z, 0%nat. split; [reflexivity|]. split; [exact T|]. cbn [skipn]. rewrite !upd_sel.
+    split; [exact I1|]. split; [exact A1|]. right. split; [discriminate|apply F1; reflexivity].
+Qed.
+
+(* the body as found (no reservation) satisfies the same weak statement *)
+Lemma drop_orig_ok w X s :
+  QInv w X ->
+  exists w' rc k, q_drop_orig w s = Ok (w', rc) /\ trace_ok w w' /\
     QInv w' (upd s (skipn k (sel s X)) X) /\
     abs w' (upd s (skipn k (sel s X)) X) = upd s (skipn k (sel s (abs w X))) (abs w X) /\
     ((rc = 0%Z /\ skipn k (sel s X) = []) \/ (rc <> 0%Z /\ failed w' = true)).
@@ -1898,44 +1977,6 @@ Qed.
 Lemma setq_siz_core w s z :
   core_eq w (setq w s (mkQ (q_pool (getq w s)) z (q_num (getq w s)) (q_mem (getq w s)))).
 Proof. unfold core_eq. destruct s; simpl; repeat split; destruct t; reflexivity. Qed.
-
-Lemma setz_ok w X s siz :
-  QInv w X ->
-  exists w' rc k, q_setz w s siz = Ok (w', rc) /\ trace_ok w w' /\
-    QInv w' (upd s (skipn k (sel s X)) X) /\
-    abs w' (upd s (skipn k (sel s X)) X) = upd s (skipn k (sel s (abs w X))) (abs w X) /\
-    ((rc = 0%Z /\ skipn k (sel s X) = []) \/ (rc <> 0%Z /\ failed w' = true)).
-Proof.
-  intros I. unfold q_setz.
-  destruct (drop_ok w X s I) as (w1 & rc & k & E & T & I1 & A1 & C1). rewrite E.
-  destruct C1 as [(Hrc & Hnil)|(Hrc & Hf)].
-  - subst rc. cbn [Z.eqb].
-    set (z := if N.eqb siz 0 then 1 else siz).
-    destruct (N.ltb (q_siz (getq w1 s)) z).
-    + pose proof (resize_all_ok (rev (q_pool (getq w1 s))) (16 + z) w1) as Rz.
-      destruct (q_resize_all w1 (rev (q_pool (getq w1 s))) (16 + z)) as [w2 ok]. destruct Rz as (C2 & T2 & F2).
-      destruct ok.
-      * eexists _, 0%Z, k. split; [reflexivity|].
-        pose proof (setq_siz_core w2 s z) as C3.
-        split; [|split; [|split]].
-        -- eapply trace_ok_trans; [exact T|]. eapply trace_ok_trans; [exact T2|].
-           intros H. split; [destruct s; exact H|destruct s; reflexivity].
-        -- eapply core_eq_QInv; [exact C3|]. eapply core_eq_QInv; eauto.
-        -- rewrite (core_eq_abs _ _ _ C3), (core_eq_abs _ _ _ C2). exact A1.
-        -- left. auto.
-      * exists w2, 4%Z, k. split; [reflexivity|]. split; [eapply trace_ok_trans; eauto|].
-        split; [eapply core_eq_QInv; eauto|]. split; [rewrite (core_eq_abs _ _ _ C2); exact A1|].
-        right. split; [discriminate|auto].
-    + eexists _, 0%Z, k. split; [reflexivity|].
-      pose proof (setq_siz_core w1 s z) as C3.
-      split; [|split; [|split]].
-      * eapply trace_ok_trans; [exact T|]. intros H. split; [destruct s; exact H|destruct s; reflexivity].
-      * eapply core_eq_QInv; eauto.
-      * rewrite (core_eq_abs _ _ _ C3). exact A1.
-      * left. auto.
-  - replace (Z.eqb rc 0) with false by (symmetry; apply Z.eqb_neq; exact Hrc).
-    exists w1, rc, k. split; [reflexivity|]. split; [exact T|]. split; [exact I1|]. split; [exact A1|]. right. auto.
-Qed.
 
 (* ------------------------------------------------------------------ reset (a_que_dtor + a_que_ctor) *)
 Lemma walk_next_spec h c pre l fuel :
@@ -2071,6 +2112,83 @@ Proof.
     { unfold abs. f_equal; apply pairs_ext; intros x Hx; unfold val; rewrite Hv'; rewrite vget_free; auto;
         apply Hkeep; unfold allnodes; apply in_or_app; [left|right; apply in_or_app; left]; exact Hx. }
     rewrite !abs_upd in Habs. exact Habs.
+Qed.
+
+(* ------------------------------------------------------------------ setz *)
+(* the recycled nodes of one queue are released (a_que_setz with a larger element size) *)
+Lemma free_pool_ok w X s z :
+  QInv w X ->
+  exists w', w' = setq (free_nodes w (q_pool (getq w s))) s (mkQ [] z (q_num (getq w s)) (q_mem (getq w s))) /\
+    trace_ok w w' /\ QInv w' X /\ abs w' X = abs w X.
+Proof.
+  intros I. set (ns := q_pool (getq w s)). set (w0 := free_nodes w ns).
+  set (w' := setq w0 s (mkQ [] z (q_num (getq w s)) (q_mem (getq w s)))).
+  exists w'. split; [reflexivity|].
+  assert (Hns : forall x, In x ns -> In x (allnodes w X)) by (intros x Hx; eapply allnodes_pool; eauto).
+  assert (Hh' : w_h w' = fold_left ddel ns (w_h w)) by (unfold w', w0; destruct s; reflexivity).
+  assert (Hv' : w_val w' = fold_left vdel ns (w_val w)) by (unfold w', w0; destruct s; reflexivity).
+  assert (Hf' : w_fresh w' = w_fresh w) by (unfold w', w0; destruct s; reflexivity).
+  assert (Hqs : getq w' s = mkQ [] z (q_num (getq w s)) (q_mem (getq w s))) by (unfold w'; apply getq_setq_same).
+  assert (Hqo : getq w' (negb s) = getq w (negb s)) by (unfold w'; rewrite getq_setq_other; destruct s; reflexivity).
+  assert (Hperm : Permutation (allnodes w X) (ns ++ allnodes w' X)).
+  { unfold allnodes, pools, ns. change (w_qa w') with (getq w' false). change (w_qb w') with (getq w' true).
+    destruct s; cbn [negb] in Hqo; rewrite Hqs, Hqo; cbn [q_pool getq]; perm_blocks. }
+  assert (ND : NoDup (ns ++ allnodes w' X)) by (eapply Permutation_NoDup; [exact Hperm|apply (qi_nodup _ _ I)]).
+  assert (Hkeep : forall x, In x (allnodes w' X) -> In x (allnodes w X) /\ ~ In x ns).
+  { intros x Hx. split.
+    - eapply Permutation_in; [symmetry; exact Hperm|]. apply in_or_app. right. exact Hx.
+    - intros H. eapply NoDup_app_disj; eauto. }
+  assert (Fr : Frame (w_h w) (w_h w') ns) by (intros x Hx; rewrite Hh'; apply dget_free; exact Hx).
+  split; [|split].
+  - intros H. split; [unfold no_fault, w', w0; destruct s; exact H|unfold failed, w', w0; destruct s; reflexivity].
+  - constructor; rewrite ?Hv', ?Hf'.
+    + intros t. eapply Ring_Frame; [apply (qi_ring _ _ I t)|exact Fr|].
+      intros x [<-|Hx] Hin.
+      * apply Hns in Hin. eapply QInv_sentinel_notin; eauto.
+      * assert (H : In x (allnodes w' X)) by (eapply allnodes_sel; eauto).
+        eapply NoDup_app_disj; eauto.
+    + eapply NoDup_app_r; eauto.
+    + intros x Hx. destruct (Hkeep x Hx) as [Hin Hnot].
+      pose proof (qi_node _ _ I x Hin) as (B & L & V). split; [exact B|]. split.
+      * unfold live. rewrite (Fr x Hnot). exact L.
+      * rewrite vget_free by exact Hnot. exact V.
+    + intros t. destruct (bool_cases s t) as [->| ->].
+      * rewrite Hqs. cbn [q_num]. apply (qi_num _ _ I).
+      * rewrite Hqo. apply (qi_num _ _ I).
+    + intros t. destruct (bool_cases s t) as [->| ->].
+      * rewrite Hqs. cbn. lia.
+      * rewrite Hqo. apply (qi_mem _ _ I).
+    + pose proof (qi_fresh _ _ I) as F0. rewrite (Permutation_length Hperm), app_length in F0. lia.
+  - unfold abs. f_equal; apply pairs_ext; intros x Hx; unfold val; rewrite Hv'; rewrite vget_free; auto;
+      apply Hkeep; unfold allnodes; apply in_or_app; [left|right; apply in_or_app; left]; exact Hx.
+Qed.
+
+(* a_que_setz as it is now: drop, then either release the recycled nodes or keep them *)
+Lemma setz_ok w X s siz :
+  QInv w X ->
+  exists w' rc k, q_setz w s siz = Ok (w', rc) /\ trace_ok w w' /\
+    QInv w' (upd s (skipn k (sel s X)) X) /\
+    abs w' (upd s (skipn k (sel s X)) X) = upd s (skipn k (sel s (abs w X))) (abs w X) /\
+    ((rc = 0%Z /\ skipn k (sel s X) = []) \/ (rc <> 0%Z /\ failed w' = true)).
+Proof.
+  intros I. unfold q_setz.
+  destruct (drop_ok w X s I) as (w1 & rc & k & E & T & I1 & A1 & C1). rewrite E.
+  destruct C1 as [(Hrc & Hnil)|(Hrc & Hf)].
+  - subst rc. cbn [Z.eqb].
+    set (z := if N.eqb siz 0 then 1 else siz).
+    destruct (N.ltb (q_siz (getq w1 s)) z).
+    + destruct (free_pool_ok w1 _ s z I1) as (w2 & -> & T2 & I2 & A2).
+      eexists _, 0%Z, k. split; [reflexivity|]. split; [eapply trace_ok_trans; eauto|].
+      split; [exact I2|]. split; [rewrite A2; exact A1|]. left. auto.
+    + eexists _, 0%Z, k. split; [reflexivity|].
+      pose proof (setq_siz_core w1 s z) as C3.
+      split; [|split; [|split]].
+      * eapply trace_ok_trans; [exact T|]. intros H. split; [destruct s; exact H|destruct s; reflexivity].
+      * eapply core_eq_QInv; eauto.
+      * rewrite (core_eq_abs _ _ _ C3). exact A1.
+      * left. auto.
+  - replace (Z.eqb rc 0) with false by (symmetry; apply Z.eqb_neq; exact Hrc).
+    exists w1, rc, k. split; [reflexivity|]. split; [exact T|]. split; [exact I1|]. split; [exact A1|]. right. auto.
 Qed.
 
 (* ================================================================== one operation refines the deque *)
@@ -2297,7 +2415,7 @@ Lemma world3_inv : QInv world3 ([3; 4; 5], []).
 Proof.
   destruct (run_refines [QPushBack false 1%Z; QPushBack false 2%Z; QPushBack false 3%Z] q_world0 ([], []) world0_inv)
     as (w' & rs & X' & E & I' & _).
-  { cbn. auto. }
+  { vm_compute. auto. }
   assert (Hw : w' = world3) by (unfold world3; rewrite E; reflexivity). subst w'.
   pose proof (ring_of_spec _ _ false I') as Ha. pose proof (ring_of_spec _ _ true I') as Hb.
   vm_compute in Ha. vm_compute in Hb. destruct X' as [xa xb]. cbn [sel] in Ha, Hb.
